@@ -359,7 +359,7 @@ func (ge *gen) eGeN() *big.Int {
 func (ge *gen) schnorrERplusP(oracle bool) (Case, bool) {
 	g := ge.g
 	for try := 0; try < 8; try++ {
-		R := refLiftX(ge.smallX[g.Intn(len(ge.smallX))].x) // even y
+		R := refLiftX(ge.pickSmallX().x) // even y
 		e := ge.scalar()
 		cls := "e-lt-n"
 		if g.Bool() {
